@@ -5,61 +5,78 @@ ENTRY = dict(
         title="The exact sampler returns the true outcome distribution of dynamic circuits",
         prop_file="Properties/C13.v",
         corr_files=["Corr/C13Corr.v"],
-        theorems=["c13_pushforward", "c13_expectation", "c13_total", "c13_pruned_bound", "c13_outcome_bound", "c13_event_bound",
-                  "c13_support", "c13_refuses", "c13_never_crashes", "c13_sampler", "c13_qsim_instance", "c13_facts",
-                  "c13_qsim_bound", "c13_qsim_outcome_bound", "c13_branches", "c13_tree_law", "c13_sampler_run_ok",
-                  "c13_sampler_run_refuses", "c13_sampler_run_single", "c13_qsim_born_step"],
+        theorems=["c13_pushforward", "c13_expectation", "c13_total", "c13_distribution",
+                  "c13_outcome_bound_static", "c13_event_bound_static", "c13_total_bound_static",
+                  "c13_pruned_bound", "c13_outcome_bound", "c13_event_bound",
+                  "c13_support", "c13_refuses", "c13_deletes_in_range",
+                  "c13_branches", "c13_tree_law",
+                  "c13_sampler_answer", "c13_sampler_run_ok", "c13_sampler_run_refuses",
+                  "c13_qsim_p1_clamped", "c13_facts", "c13_qsim_bound", "c13_qsim_outcome_bound", "c13_qsim_outcome_bound_static",
+                  "c13_qsim_born_step"],
+        # c13_sampler_def, c13_sampler_run_single_def (unfoldings of the model's definition of Qiskit's validation) are kept in
+        # Properties/C13.v as definitional remarks and are deliberately NOT registered as results.
         allowed_axioms=[],
         facts=["sim_tolerance", "sim_isclose_sites", "value_error_sites"],
         harness="c13",
-        level_text="Unbounded theorems (every program length, every number of qubits/clbits) about the executable model of "
-                   "simulate_statevector_outcomes, stated for EVERY instrument (state, apply, p1, proj, flipx): with tolerance 0 the "
-                   "returned association list has distinct keys and, as a finite map outcome -> Q, equals the push-forward of an "
-                   "independently defined recursive path semantics (measurement splits with weights 1-p1/p1 and clears/sets its bit, "
-                   "later writes overwrite, reset splits and leaves bits alone), for every function of the outcome; it sums to 1; with "
-                   "any tolerance >= 0 (in particular the source's 1e-16) and 0<=p1<=1 EVERY outcome's (every event's) returned probability "
-                   "is at most its path-law probability and at most (#truncated branches)*tol below it (c13_outcome_bound / c13_event_bound, "
-                   "instantiated at the extracted _TOLERANCE in c13_qsim_outcome_bound), the mass is within the same bound of 1 and every "
-                   "reported outcome has positive probability; conditioned operations / clbits on non-measurements anywhere give "
-                   "ValueError; the reversed-order deletions never go out of range. The quantum step itself is NOT proved: the model is "
-                   "instantiated with an exact Q(sqrt2)(i) state-vector simulator written in Coq and evaluated against the implementation on "
-                   "~900 generated circuits per run (as finite maps: key sets exactly, probabilities within 1e-12), and every case is also "
-                   "compared with an independent numpy density-matrix simulator (also for arbitrary unitaries and for ExactSampler runs over "
-                   "several parametrised circuits).",
-        level_text_ext="Extension: (i) c13_branches / c13_tree_law -- for every instrument and EVERY tolerance (no hypothesis on p1) the dictionary "
-                   "held when the loop ends is, entry by entry (multiset, Leibniz-equal weights and states), the set of leaves of an explicit branch "
-                   "tree: gate operands applied in instruction order, measurement children clear/set the bit (overwrite), reset children keep the "
-                   "register, children within tol cut with their subtree, leaf weight = product of the conditional probabilities on its path; so the "
-                   "returned map equals the truncated-tree law exactly at the source's 1e-16. (ii) c13_sampler_run_ok/_refuses/_single -- the "
-                   "ExactSampler.run wrapper over several circuits (Qiskit validation of all circuits, then one simulation per circuit): entry i is "
-                   "what the function returns for circuit i alone; one invalid/refusing circuit refuses the call; tied by the samplerq stream "
-                   "(incl. a second run after in-place extension of the same circuit objects on the same sampler). (iii) c13_qsim_born_step -- on the "
-                   "exact simulator, for every vector and qubit: the post-measurement vector is the projection, |P0 v|^2+|P1 v|^2=|v|^2 exactly, and "
-                   "(under the per-state audit bit) p1 = |P1 v|^2/|v|^2 unclamped; q2div is division in Q(sqrt2). STILL NOT PROVED: that QSim's gate "
-                   "actions (x y z h s sdg sx sxdg cx cz swap ccx) are unitary and equal Qiskit's matrices -- every other gate is outside QSim "
-                   "altogether -- and that the audit bit always holds (Clifford+ccx amplitudes have rational squared norms); both are checked per case.",
-        level_note=STD_NOTE + "No axioms. The Born rule / Qiskit's Statevector semantics is not formalised: it enters as the abstract "
-                   "instrument of the theorems and as Common/QSim.v (definitions, audited per case for exact rational probabilities) in the comparison. "
+        level_text="Unbounded theorems (every program length / width) about the executable model of simulate_statevector_outcomes, stated for "
+                   "EVERY instrument (state, apply, p1, proj, flipx) -- the quantum step is abstract. PROVED about the bookkeeping: "
+                   "(1) tolerance 0, NO premise on p1 (algebraic identities, they also hold for a non-probability p1): the returned list has "
+                   "distinct keys and equals, as a finite map and for every function of the outcome, the push-forward of an independently "
+                   "written recursive path semantics (measurement splits with weights 1-p1/p1 and clears/sets its bit, later writes overwrite, "
+                   "reset splits and leaves bits alone); total 1 (c13_pushforward/_expectation/_total). With 0<=p1<=1 added: the answer is a "
+                   "probability distribution, values in (0,1] (c13_distribution, c13_support). "
+                   "(2) the source's tolerance (any tol >= 0, 0<=p1<=1): every outcome / every [0,1]-valued event is never above its path-law value "
+                   "and at most 2*(#measure+#reset)*tol below it; the total is within the same bound of 1 (c13_*_bound_static; a-priori, "
+                   "<= 4e-15 for 20 instructions at 1e-16; non-vacuity with a toy instrument where mass is really lost). 'Sums to one' and 'true "
+                   "probability' therefore hold at the source's tolerance only up to this bound. The older c13_pruned_bound/_outcome_bound/"
+                   "_event_bound give the sharper n*tol with n a ghost counter of the model (not observable, can double per branching measurement). "
+                   "(3) any tolerance, no premise: the final dictionary is entry by entry the leaf multiset of an explicit tree CUT BY THE SAME "
+                   "isclose0 RULE and the returned map is that tree's law (c13_branches/_tree_law: a specification of which branches are cut; "
+                   "closeness to the uncut law only via (2)). (4) GIVEN the harness's classification of instructions into constructors, a "
+                   "conditioned operation / a clbit on a non-measurement anywhere gives ValueError (c13_refuses); the model's only other exception "
+                   "source, the reversed-order deletions, never fires (c13_deletes_in_range; Qiskit-internal exceptions are not modelled). "
+                   "(5) ExactSampler: for ONE circuit passing Qiskit's validation the answer obeys (2) against the path law (c13_sampler_answer); "
+                   "for several circuits entry i is the function's answer for circuit i alone and one invalid/refusing circuit refuses the call "
+                   "(c13_sampler_run_ok/_refuses). For circuits without classical bits or without a Measure -- inside the property's quantifier -- "
+                   "ExactSampler().run raises ValueError in Qiskit's BaseSamplerV1 validation; the sampler clause is NOT claimed for them (the "
+                   "function clause is). Parameter binding is not modelled. "
+                   "NOT PROVED (correspondence only): that Qiskit's Statevector is the Born instrument; the model is instantiated with an exact "
+                   "Q(sqrt2)(i) simulator written in Coq (12 gates) and compared with the implementation on ~1000 generated circuits per run as "
+                   "finite maps (key sets exactly, probabilities within 1e-12), and every case also with an independent numpy density-matrix simulator.",
+        level_text_ext="QSim instance: c13_qsim_p1_clamped holds by the clamp in qp1's definition (it only discharges the premise 0<=p1<=1). "
+                   "c13_qsim_born_step: for every vector and qubit, qproj (the projection by definition) has squared norm |P_b v|^2; "
+                   "|P0 v|^2+|P1 v|^2=|v|^2 exactly; UNDER the per-state audit bit p1=|P1 v|^2/|v|^2 unclamped; q2div is division when c^2-2d^2<>0. "
+                   "NOT proved: QSim's gate actions (x y z h s sdg sx sxdg cx cz swap ccx; every other gate is outside QSim) are unitary / equal "
+                   "Qiskit's matrices; that the audit bit holds on all reachable states. QSim is total: on ill-formed operands (index out of range, "
+                   "repeated operand, wrong arity) it returns some vector, so c13_qsim_* are meaningful only for wf_qprog programs (premise of "
+                   "c13_qsim_outcome_bound_static; the checker tests wf_qprog, the audit bit, and norm preservation of every gate application on "
+                   "every case).",
+        level_note=STD_NOTE + "No axioms. sim_tolerance is the exact decimal value 1/10^16 of the source literal `1e-16` (the binary64 value Python uses is "
+                   "about 2e-33 smaller; rounding is not modelled). "
                    "OBSERVATION (outside the property's quantifier 'unitary gates, barriers, projective measurements and resets'): a reset nested "
                    "inside a composite instruction (qc.initialize(...), or a sub-circuit with reset appended via to_instruction()) is sent to "
                    "Statevector._evolve_instruction, which SAMPLES one outcome: e.g. h(0); cx(0,1); initialize([0,1],0); measure([0,1],[0,1]) returns "
                    "{3:1.0} or {1:1.0} varying between calls instead of {1:.5, 3:.5}. Neither the generator nor the model produces such inputs; "
                    "composites of unitaries (to_gate) are generated and modelled by inlining their definition. "
-                   "OBSERVATION: ExactSampler().run refuses circuits without clbits / without a Measure (Qiskit's BaseSamplerV1 validation), although "
-                   "the class docstring says all classical bits may remain unused. The order of the returned dict is mirrored by the model "
-                   "(Example c13_ex_order) but is not part of the verdict (compared as maps).",
+                   "The order of the returned dict is mirrored by the model (Example c13_ex_order) but is not part of the verdict (compared as maps).",
         assumptions=[
-            "Model/Sim.v is a hand-written model of simulate_statevector_outcomes (dict in insertion order, k0/k1 masks, pending delete/insert, "
-            "cleanup, truncation |p| <= _TOLERANCE, refusals) and of ExactSampler.run (Qiskit's BaseSamplerV1 validation: no clbits / no Measure "
-            "-> ValueError, monitored as an oracle contract); tied to the source by the C13 correspondence and the extracted _TOLERANCE / isclose-shape facts",
-            "Qiskit's Statevector.probabilities / evolve / _evolve_instruction (barrier = identity; a composite gate of unitaries = its definition) "
-            "implement the instrument: compared per case with Common/QSim.v (gate set x y z h s sdg sx sxdg cx cz swap ccx, exact arithmetic) inside Coq "
-            "and with a numpy density-matrix simulator",
-            "p0 is modelled as 1 - p1 (the implementation reads both from sv.probabilities); binary64 rounding is not modelled (results compared within 1e-12)",
-            "arbitrary unitaries, parametrised rotations, branches near the cut-off and multi-circuit / parameter_values sampler runs are only compared "
-            "with the harness's density-matrix oracle (1e-9)",
-            "the truncation count n of c13_outcome_bound / c13_pruned_bound is a ghost counter of the model, not observable on the implementation",
-            "composite instructions containing resets/measurements (initialize, to_instruction with reset) and opaque operations holding clbits are "
-            "outside the property's quantifier: not generated, never flagged by judge (see level_note for the observed behaviour)",
+            "[physics/oracle] Qiskit's Statevector.probabilities / evolve / _evolve_instruction (barrier = identity; a composite gate of unitaries = its "
+            "definition; operands passed in instruction order) implement a Born instrument: compared per case with Common/QSim.v inside Coq and with a "
+            "numpy density-matrix simulator; never proved",
+            "[oracle] Qiskit's BaseSamplerV1.run validation (no circuits / no clbits / no Measure -> ValueError before the package's code) as modelled "
+            "in Model.sampler / sampler_run; monitored as an oracle contract on every valid case",
+            "[model] Model/Sim.v, Model/SimTree.v are hand-written models of simulate_statevector_outcomes (dict in insertion order, k0/k1 masks, "
+            "pending delete/insert, cleanup, truncation |p| <= _TOLERANCE, the two refusals) and of ExactSampler.run; tied to the source by the C13 "
+            "correspondence and the extracted _TOLERANCE / isclose-shape facts; which constructor an instruction maps to (PCond, PGateWithClbit, ...) is "
+            "decided by the harness",
+            "[model] p0 is modelled as 1 - p1 (the implementation reads both from sv.probabilities); binary64 rounding is not modelled (results compared "
+            "within 1e-12); parameter binding (assign_parameters) is not modelled",
+            "[success-case] the bounds are stated for runs that return (simulate = Ok out); c13_pushforward/c13_tree_law prove that every program "
+            "without a refusing instruction does return",
+            "[input precondition] statements about the QSim instance presuppose wf_qprog (what QuantumCircuit guarantees); arbitrary unitaries, "
+            "parametrised rotations, branches near the cut-off and multi-circuit / parameter_values sampler runs are only compared with the harness's "
+            "density-matrix oracle (1e-9)",
+            "[outside the quantifier] composite instructions containing resets/measurements (initialize, to_instruction with reset) and opaque operations "
+            "holding clbits: not generated, never flagged by judge (see level_note)",
         ],
     )
